@@ -32,6 +32,7 @@ func (Nil) Canon() string { return "nil" }
 type Sym struct {
 	Name   string
 	NotNil bool // known to differ from nil (a non-nil error, an allocated pointer)
+	NonNeg bool // an integer known to be ≥ 0 (the key of a range over a slice, array, string or integer)
 }
 
 func (s Sym) Canon() string { return s.Name }
